@@ -350,6 +350,7 @@ func cmdCheck(args []string) {
 		funcs = append(funcs, map[string]interface{}{"name": r.Func, "where": fmt.Sprintf("%s:%d", rel, r.Line), "obligations": nob, "trusted": r.Trusted})
 	}
 	if *updateNames {
+		cr.eng.recordShapes()
 		var names []string
 		bad := map[string]bool{}
 		for _, rw := range rows {
@@ -397,6 +398,8 @@ func cmdCheck(args []string) {
 		byGroup[g] = append(byGroup[g], rw)
 		funcsGenerated[rw.o.Fn] = true
 	}
+	lostBy := map[string][]string{}
+	var lostOrder []string
 	for _, name := range claimedOrder {
 		members := byGroup[name]
 		isGroup := strings.HasSuffix(name, "#*") || strings.Contains(name, "/call#*.")
@@ -415,7 +418,22 @@ func cmdCheck(args []string) {
 			}
 			nClaimed++
 			lines = append(lines, "CONTRACT-MISMATCH property="+spec.ID+" obligation="+name+" (claimed obligation was not generated: function, loop or call site changed)")
-			broken = true
+			// An obligation that discharged on the unchanged tree and can no longer be
+			// established from the current source has failed (a deductive verifier rejects a
+			// function whose invariant no longer fits it): reported below as one violation per
+			// function, without a failing input.
+			fn := name
+			if i := strings.LastIndex(fn, "/"); i >= 0 {
+				fn = fn[:i]
+			}
+			if i := strings.Index(fn, ">"); i >= 0 {
+				// obligations of a closure inlined at a call site belong to the enclosing function
+				fn = fn[:strings.Index(fn, "@")]
+			}
+			if _, seen := lostBy[fn]; !seen {
+				lostOrder = append(lostOrder, fn)
+			}
+			lostBy[fn] = append(lostBy[fn], name)
 			continue
 		}
 		for _, rw := range members {
@@ -441,12 +459,44 @@ func cmdCheck(args []string) {
 			}
 			violations++
 			path, reproduced := cr.replay(rw.r, rw.o, replayDir)
+			lines = append(lines, "FAILED-OBLIGATION property="+spec.ID+" obligation="+rw.o.Name+" ("+rw.o.Status+") "+truncStr(rw.o.Desc, 200))
 			l := "VIOLATION property=" + spec.ID + " replay=" + path
 			if !reproduced {
 				l += " no-failing-input-found"
 			}
-			lines = append(lines, l+"   # obligation "+rw.o.Name+" ("+rw.o.Status+")")
+			lines = append(lines, l)
 		}
+	}
+	for _, fn := range lostOrder {
+		var why []string
+		short := fn
+		if i := strings.LastIndex(short, "/"); i >= 0 {
+			short = short[i+1:]
+		}
+		for _, e := range errs {
+			if strings.Contains(e, short) {
+				why = append(why, e)
+			}
+		}
+		for _, m := range mismatch {
+			if strings.Contains(m, short) {
+				why = append(why, m)
+			}
+		}
+		if len(why) == 0 {
+			why = []string{"the loop, call site or statement the clause is attached to is no longer in the function"}
+		}
+		os.MkdirAll(replayDir, 0755)
+		path := filepath.Join(replayDir, sanitize(strings.ReplaceAll(fn, "/", "_"))+".lost.json")
+		rf := &ReplayFile{Property: spec.ID, Obligation: strings.Join(lostBy[fn], ", "), Kind: "lost", Function: fn,
+			Statement: "obligations claimed for this property (they discharge on the unchanged tree) that can no longer be generated from the current source",
+			Status:    "not generated: " + strings.Join(why, " | "), ReplayKind: "none",
+			Note:      "the contract no longer fits the function, so what it proved about the unchanged code is not re-established for this code; no failing input found"}
+		data, _ := json.MarshalIndent(rf, "", " ")
+		os.WriteFile(path, data, 0644)
+		violations++
+		lines = append(lines, fmt.Sprintf("FAILED-OBLIGATION property=%s %d claimed obligation(s) of %s can no longer be established: %s", spec.ID, len(lostBy[fn]), fn, truncStr(strings.Join(why, " | "), 300)))
+		lines = append(lines, fmt.Sprintf("VIOLATION property=%s replay=%s no-failing-input-found", spec.ID, path))
 	}
 	// new obligations that fail
 	for _, rw := range rows {
@@ -472,7 +522,8 @@ func cmdCheck(args []string) {
 		path, reproduced := cr.replay(rw.r, rw.o, replayDir)
 		if reproduced {
 			violations++
-			lines = append(lines, "VIOLATION property="+spec.ID+" replay="+path+"   # new obligation "+rw.o.Name)
+			lines = append(lines, "FAILED-OBLIGATION property="+spec.ID+" obligation="+rw.o.Name+" (new obligation, sat, reproduced) "+truncStr(rw.o.Desc, 200))
+			lines = append(lines, "VIOLATION property="+spec.ID+" replay="+path)
 		} else {
 			undecided++
 			lines = append(lines, "UNDECIDED obligation="+rw.o.Name+" ("+rw.o.Status+") "+rw.o.Desc)
@@ -523,6 +574,9 @@ func cmdCheck(args []string) {
 		inl = append(inl, u)
 	}
 	sort.Strings(inl)
+	for _, rn := range cr.eng.renameNotes {
+		notes[rn] = true
+	}
 	var nts []string
 	for u := range notes {
 		nts = append(nts, u)
